@@ -8,6 +8,8 @@ import (
 	"encoding/json"
 	"errors"
 	"fmt"
+	"io"
+	"log"
 	"net/http"
 	"net/http/httptest"
 	"strings"
@@ -220,66 +222,72 @@ func rrRun(raw json.RawMessage) (interface{}, error) {
 }
 
 // ---------------------------------------------------------------------------------------------------------
-// c06.redirect: a sequence of requests answered by ONE shared `$path` redirect target through
-// Table.Lookup + HTTPProxy.ServeHTTP: the Location per call.
+// c06.redirect: a sequence of requests answered by ONE shared redirect target through Table.Lookup +
+// HTTPProxy.ServeHTTP. Consecutive requests differ in Host (case, port), path, raw path and query; templates of
+// every form ($host only, $path only, both, neither) with strip/prepend. Next to every answer the harness
+// records what the SAME request gets from a freshly built table that has seen no other request: the Location
+// must be a function of the request alone (redirect_depends_only_on_request), so the two must be equal.
 // ---------------------------------------------------------------------------------------------------------
 
+type rdReq struct {
+	Host  string `json:"host"`
+	Path  string `json:"path"` // may carry percent-escapes (then RawPath differs from Path)
+	Query string `json:"query"`
+}
+
 type rdIn struct {
-	Form  int      `json:"form"` // 0: https://to.example$path  1: https://to.example/$path  2: https://to.example/new$path
-	Paths []string `json:"paths"`
-	Query []string `json:"query"` // per request, "" = none
+	Src     int     `json:"src"`  // 0: "/"   1: "*.example/"
+	Tmpl    int     `json:"tmpl"` // index into rdTemplates
+	Strip   string  `json:"strip"`
+	Prepend string  `json:"prepend"`
+	Reqs    []rdReq `json:"reqs"`
 }
 
-var rdForms = []string{"https://to.example$path", "https://to.example/$path", "https://to.example/new$path"}
-
-const rdPathAlphabet = "abcxyz019-_"
-
-func rdGenPath(r *hx.Rand) string {
-	var b strings.Builder
-	segs := 1 + r.Intn(3)
-	for s := 0; s < segs; s++ {
-		b.WriteByte('/')
-		n := 1 + r.Intn(5)
-		for j := 0; j < n; j++ {
-			b.WriteByte(rdPathAlphabet[r.Intn(len(rdPathAlphabet))])
-		}
-	}
-	return b.String()
+type rdAns struct {
+	Code          int    `json:"code"`
+	Location      string `json:"location"`
+	AloneCode     int    `json:"alone_code"`
+	AloneLocation string `json:"alone_location"`
 }
+
+var rdSrcs = []string{"/", "*.example/"}
+
+var rdTemplates = []string{
+	"https://to.example$path",     // 0  $path only
+	"https://to.example/$path",    // 1
+	"https://to.example/new$path", // 2
+	"https://$host/",              // 3  $host only
+	"https://$host/login",         // 4
+	"https://$host$path",          // 5  both
+	"https://$host/x$path",        // 6
+	"https://to.example/fixed",    // 7  neither
+	"http://$host$path",           // 8  both, same scheme as the request: the self-redirect skip
+}
+
+var rdHosts = []string{"a.example", "A.Example", "a.example:80", "b.example", "b.example:8080", "c.other", "b.example"}
+var rdPaths = []string{"/", "/a", "/a/b", "/s/a", "/s", "/a%2Fb", "/x%20y", "/A", "/login", "/fixed", "/new/a"}
+var rdQueries = []string{"", "", "q=1", "x=y&z=0"}
 
 func rdGen(r *hx.Rand, i int) interface{} {
-	in := rdIn{Form: r.Intn(3)}
+	in := rdIn{Tmpl: r.Intn(len(rdTemplates))}
+	if r.Chance(1, 4) {
+		in.Src = 1
+	}
+	if r.Chance(1, 4) {
+		in.Strip = "/s"
+	}
+	if r.Chance(1, 5) {
+		in.Prepend = "/p"
+	}
 	n := 2 + r.Intn(6)
 	for j := 0; j < n; j++ {
-		in.Paths = append(in.Paths, rdGenPath(r))
-		q := ""
-		if r.Chance(1, 3) {
-			q = string(rdPathAlphabet[r.Intn(6)]) + "=" + string(rdPathAlphabet[6+r.Intn(3)])
+		q := rdReq{Host: rdHosts[r.Intn(len(rdHosts))], Path: rdPaths[r.Intn(len(rdPaths))], Query: rdQueries[r.Intn(len(rdQueries))]}
+		if j > 0 && r.Chance(1, 5) { // the same request again later in the sequence
+			q = in.Reqs[r.Intn(len(in.Reqs))]
 		}
-		in.Query = append(in.Query, q)
+		in.Reqs = append(in.Reqs, q)
 	}
 	return in
-}
-
-func validRdPath(p string) bool {
-	if len(p) < 2 || len(p) > 64 || p[0] != '/' || strings.Contains(p, "//") || strings.HasSuffix(p, "/") {
-		return false
-	}
-	for _, c := range p[1:] {
-		if c != '/' && !strings.ContainsRune(rdPathAlphabet, c) {
-			return false
-		}
-	}
-	return true
-}
-
-func validRdQuery(q string) bool {
-	for _, c := range q {
-		if c != '=' && c != '&' && !strings.ContainsRune(rdPathAlphabet, c) {
-			return false
-		}
-	}
-	return len(q) <= 32
 }
 
 // newProxy wires HTTPProxy the way main.go does: route.GetTable() is replaced by the given table getter.
@@ -293,42 +301,88 @@ func newProxy(get func() route.Table, cache *route.GlobCache, globDisabled bool)
 	}
 }
 
+func rdOptOK(s string) bool {
+	if len(s) > 16 {
+		return false
+	}
+	for _, c := range s {
+		if !(c == '/' || c >= 'a' && c <= 'z' || c >= '0' && c <= '9') {
+			return false
+		}
+	}
+	return s == "" || s[0] == '/'
+}
+
+func rdServe(p *proxy.HTTPProxy, q rdReq) (int, string, error) {
+	u := "http://" + q.Host + q.Path
+	if q.Query != "" {
+		u += "?" + q.Query
+	}
+	req, err := http.NewRequest("GET", u, nil)
+	if err != nil {
+		return 0, "", err
+	}
+	if req.URL.Host == "" || req.URL.Path == "" || req.URL.Path[0] != '/' {
+		return 0, "", errors.New("not an origin-form request")
+	}
+	req.RemoteAddr = "10.1.2.3:4567"
+	req.RequestURI = req.URL.RequestURI()
+	rec := httptest.NewRecorder()
+	p.ServeHTTP(rec, req)
+	return rec.Code, rec.Header().Get("Location"), nil
+}
+
 func rdRun(raw json.RawMessage) (interface{}, error) {
 	var in rdIn
 	if err := json.Unmarshal(raw, &in); err != nil {
 		return nil, err
 	}
-	if in.Form < 0 || in.Form >= len(rdForms) || len(in.Paths) > 256 {
+	if in.Tmpl < 0 || in.Tmpl >= len(rdTemplates) || in.Src < 0 || in.Src >= len(rdSrcs) || len(in.Reqs) > 64 ||
+		!rdOptOK(in.Strip) || !rdOptOK(in.Prepend) {
 		return nil, errors.New("out of range")
 	}
-	for i, p := range in.Paths {
-		if !validRdPath(p) {
-			return nil, errors.New("path outside the modelled alphabet")
-		}
-		if i < len(in.Query) && !validRdQuery(in.Query[i]) {
-			return nil, errors.New("query outside the modelled alphabet")
-		}
+	opts := "redirect=301"
+	if in.Strip != "" {
+		opts += " strip=" + in.Strip
 	}
-	t, err := route.VerifNewTable("route add red / " + rdForms[in.Form] + ` opts "redirect=301"`)
+	if in.Prepend != "" {
+		opts += " prepend=" + in.Prepend
+	}
+	def := "route add red " + rdSrcs[in.Src] + " " + rdTemplates[in.Tmpl] + ` opts "` + opts + `"`
+	mk := func() (*proxy.HTTPProxy, error) {
+		t, err := route.VerifNewTable(def)
+		if err != nil {
+			return nil, err
+		}
+		return newProxy(func() route.Table { return t }, route.NewGlobCache(4), false), nil
+	}
+	shared, err := mk()
 	if err != nil {
 		return nil, err
 	}
-	p := newProxy(func() route.Table { return t }, route.NewGlobCache(4), false)
-	out := []map[string]interface{}{}
-	for i, path := range in.Paths {
-		u := "http://src.example" + path
-		if i < len(in.Query) && in.Query[i] != "" {
-			u += "?" + in.Query[i]
+	out := []rdAns{}
+	for _, q := range in.Reqs {
+		if len(q.Host) > 64 || len(q.Path) > 64 || len(q.Query) > 64 {
+			return nil, errors.New("request too long")
 		}
-		req := httptest.NewRequest("GET", u, nil)
-		rec := httptest.NewRecorder()
-		p.ServeHTTP(rec, req)
-		out = append(out, map[string]interface{}{"code": rec.Code, "location": rec.Header().Get("Location")})
+		var a rdAns
+		if a.Code, a.Location, err = rdServe(shared, q); err != nil {
+			return nil, err
+		}
+		alone, err := mk()
+		if err != nil {
+			return nil, err
+		}
+		if a.AloneCode, a.AloneLocation, err = rdServe(alone, q); err != nil {
+			return nil, err
+		}
+		out = append(out, a)
 	}
 	return out, nil
 }
 
 func init() {
+	log.SetOutput(io.Discard) // the route package logs every skipped self-redirect
 	hx.Register(&hx.Stream{Name: "c06.globcache", Gen: gcGen, Run: gcRun, Corpus: []interface{}{
 		gcIn{Size: 1, Universe: []string{"a", "b"}, Ops: []int{0, 1, 0, 1}},
 		gcIn{Size: 3, Universe: []string{"*.a.com", "*.b.com", "*.c.com", "*.d.com", "["}, Ops: []int{0, 1, 2, 3, 4, 0, 1, 0, 3}},
@@ -338,6 +392,7 @@ func init() {
 		rrIn{Weights: []int{20, 0}, Start: 7, Picks: 30},
 	}})
 	hx.Register(&hx.Stream{Name: "c06.redirect", Gen: rdGen, Run: rdRun, Corpus: []interface{}{
-		rdIn{Form: 0, Paths: []string{"/a", "/b", "/a"}, Query: []string{"", "a=1", ""}},
+		rdIn{Tmpl: 0, Reqs: []rdReq{{"a.example", "/a", ""}, {"a.example", "/b", "a=1"}, {"a.example", "/a", ""}}},
+		rdIn{Tmpl: 3, Reqs: []rdReq{{"a.example", "/", ""}, {"b.example", "/", ""}}},
 	}})
 }
